@@ -20,7 +20,7 @@ func init() {
 	register(&simk.Prop{
 		ID:    "C16",
 		Level: "exploration",
-		Rule: "seeded signature sets of 0..40 auths mixing ed25519 (batched), secp256r1 and BLS with 0..3 invalid signatures at chosen positions (incl. first/last of a batch, only in the final partial batch, counts at batch-1, batch, batch+1, k*batch), 1..16 verification workers; the real AuthBatch + worker pool + real signature verification run under the seeded scheduler (Add, batch workers, pool workers, Done, Wait interleaved); verdict compared with one-by-one Auth.Verify; " +
+		Rule: "sequences of 1..3 blocks (earlier ones possibly abandoned without waiting, as when block verification returns early) on one worker pool, each a seeded signature set of 0..40 auths mixing ed25519 (batched), secp256r1 and BLS with 0..3 invalid signatures at chosen positions (incl. first/last of a batch, only in the final partial batch, counts at batch-1, batch, batch+1, k*batch), 1..16 verification workers; the real AuthBatch + worker pool + real signature verification run under the seeded scheduler (Add, batch workers, pool workers, Done, Wait interleaved); verdict compared with one-by-one Auth.Verify; " +
 			"non-trivial = >=2 runnable tasks at some step and >= 2 signatures; distinct = distinct (schedule, type/validity vector, workers) hashes. The block-level half (Processor.Execute fails iff a signature is invalid) is exercised by the E2 engine.",
 		Exec: c16,
 		Real: []string{"chain.AuthBatch", "auth.ED25519Batch / engines", "auth.{ED25519,SECP256R1,BLS}.Verify with real cryptography", "internal/workers ParallelWorkers"},
@@ -64,12 +64,16 @@ type c16Sig struct {
 	auth    chain.Auth
 }
 
-func c16(r *simk.Run) *simk.Violation {
-	c16Init()
-	c := r.C
-	s := r.NewSim()
-	s.KeepLog = simk.WantLog()
-	cores := 1 + c.Intn(16)
+type c16Block struct {
+	sigs        []*c16Sig
+	counts      map[uint8]int
+	wantInvalid bool
+	abandoned   bool // the verifier does not wait for the job (Processor.Execute returning early)
+	waitErr     error
+	waited      bool
+}
+
+func c16GenBlock(c *simk.Choices, tier string) (*c16Block, error) {
 	var n int
 	switch c.Intn(4) {
 	case 0:
@@ -80,14 +84,14 @@ func c16(r *simk.Run) *simk.Violation {
 	default:
 		n = c.Intn(41)
 	}
-	if r.Tier != "thorough" && n > 24 {
+	if tier != "thorough" && n > 24 {
 		n = 24
 	}
 	mix := c.Intn(4) // 0: ed25519 only, 1: mostly ed25519, 2: uniform, 3: no batched type
-	sigs := make([]*c16Sig, n)
+	blk := &c16Block{sigs: make([]*c16Sig, n), counts: map[uint8]int{}}
 	nInvalid := c.Weighted(4, 3, 2, 1)
 	invalidAt := map[int]bool{}
-	for len(invalidAt) < nInvalid && len(invalidAt) < n {
+	for try := 0; try < 12 && len(invalidAt) < nInvalid && len(invalidAt) < n; try++ {
 		switch c.Intn(4) {
 		case 0:
 			invalidAt[0] = true
@@ -97,8 +101,7 @@ func c16(r *simk.Run) *simk.Violation {
 			invalidAt[c.Intn(n)] = true
 		}
 	}
-	counts := map[uint8]int{}
-	for i := range sigs {
+	for i := range blk.sigs {
 		var t int
 		switch mix {
 		case 0:
@@ -130,58 +133,83 @@ func c16(r *simk.Run) *simk.Violation {
 			name = "bls"
 		}
 		if err != nil {
-			return &simk.Violation{Class: "harness", Detail: err.Error()}
+			return nil, err
 		}
-		sigs[i] = &c16Sig{Type: name, Invalid: invalidAt[i], digest: digest, auth: a}
-		counts[a.GetTypeID()]++
+		blk.sigs[i] = &c16Sig{Type: name, Invalid: invalidAt[i], digest: digest, auth: a}
+		blk.counts[a.GetTypeID()]++
 	}
 	// reference verdict: one by one
-	wantInvalid := false
-	for _, sg := range sigs {
+	for _, sg := range blk.sigs {
 		if sg.auth.Verify(context.Background(), sg.digest) != nil {
-			wantInvalid = true
+			blk.wantInvalid = true
 		}
 	}
-	var waitErr error
-	waited := false
+	return blk, nil
+}
+
+func c16(r *simk.Run) *simk.Violation {
+	c16Init()
+	c := r.C
+	s := r.NewSim()
+	s.KeepLog = simk.WantLog()
+	cores := 1 + c.Intn(16)
+	nBlocks := 1 + c.Intn(3)
+	blocks := make([]*c16Block, nBlocks)
+	total := 0
+	for i := range blocks {
+		b, err := c16GenBlock(c, r.Tier)
+		if err != nil {
+			return &simk.Violation{Class: "harness", Detail: err.Error()}
+		}
+		// all but the last block may be abandoned by the verifier (early error return)
+		b.abandoned = i < nBlocks-1 && c.Bool(0.4)
+		blocks[i] = b
+		total += len(b.sigs)
+	}
 	stopped := false
 	s.Run(r.T, func() {
-		w := workers.NewParallel(cores, 2)
-		job, err := w.NewJob(n + 1)
-		if err != nil {
-			s.Violate("C16/newjob", "NewJob failed: %v", err)
-			return
-		}
-		batch := chain.NewAuthBatch(logging.NoLog{}, auth.DefaultEngines(), job, counts)
-		doneCh := make(chan struct{})
-		adder := func() {
-			for _, sg := range sigs {
+		w := workers.NewParallel(cores, 4)
+		var dones sync.WaitGroup
+		for bi, blk := range blocks {
+			job, err := w.NewJob(len(blk.sigs) + 1)
+			if err != nil {
+				s.Violate("C16/newjob", "NewJob failed: %v", err)
+				return
+			}
+			batch := chain.NewAuthBatch(logging.NoLog{}, auth.DefaultEngines(), job, blk.counts)
+			for _, sg := range blk.sigs {
 				batch.Add(sg.digest, sg.auth)
-				s.Yield("adder.next", 0)
+				s.Yield("adder.next", uint64(bi))
 			}
 			// the processor hands Done to its own goroutine
-			s.Go("batch.Done", 0, func() {
+			dones.Add(1)
+			s.Go("batch.Done", uint64(bi), func() {
+				defer dones.Done()
 				batch.Done(func() {})
-				close(doneCh)
 			})
+			if !blk.abandoned {
+				blk.waitErr = job.Wait()
+				blk.waited = true
+			}
 		}
-		adder()
-		waitErr = job.Wait()
-		waited = true
-		<-doneCh
+		dones.Wait()
 		w.Stop()
 		stopped = true
 	})
-	sample := make([]string, n)
-	for i, sg := range sigs {
-		sample[i] = sg.Type
-		if sg.Invalid {
-			sample[i] += "!"
+	var sample []any
+	for _, blk := range blocks {
+		ss := make([]string, len(blk.sigs))
+		for i, sg := range blk.sigs {
+			ss[i] = sg.Type
+			if sg.Invalid {
+				ss[i] += "!"
+			}
 		}
+		sample = append(sample, map[string]any{"sigs": ss, "abandoned": blk.abandoned})
 	}
-	r.Sample(map[string]any{"workers": cores, "sigs": sample})
+	r.Sample(map[string]any{"workers": cores, "blocks": sample})
 	r.Fingerprint("%d|%v", cores, sample)
-	if s.MultiPicks > 0 && n >= 2 {
+	if s.MultiPicks > 0 && total >= 2 {
 		r.Nontrivial()
 	}
 	if v := s.Violation(); v != nil {
@@ -190,14 +218,19 @@ func c16(r *simk.Run) *simk.Violation {
 	if s.StepLimit {
 		return nil
 	}
-	if s.Hung || !waited || !stopped {
-		return &simk.Violation{Class: "C16/hang", Detail: fmt.Sprintf("signature verification never completed (waited=%v): parked=[%s]; workers=%d sigs=%v", waited, s.HangInfo, cores, sample)}
+	if s.Hung || !stopped {
+		return &simk.Violation{Class: "C16/hang", Detail: fmt.Sprintf("signature verification never completed: parked=[%s]; workers=%d blocks=%v", s.HangInfo, cores, sample)}
 	}
-	if wantInvalid && waitErr == nil {
-		return &simk.Violation{Class: "C16/invalid-signature-accepted", Detail: fmt.Sprintf("one-by-one verification rejects at least one signature but the batched/parallel job succeeded; workers=%d sigs=%v", cores, sample)}
-	}
-	if !wantInvalid && waitErr != nil {
-		return &simk.Violation{Class: "C16/valid-signatures-rejected", Detail: fmt.Sprintf("every signature verifies one by one but the batched/parallel job failed with %v; workers=%d sigs=%v", waitErr, cores, sample)}
+	for bi, blk := range blocks {
+		if blk.abandoned {
+			continue
+		}
+		if blk.wantInvalid && blk.waitErr == nil {
+			return &simk.Violation{Class: "C16/invalid-signature-accepted", Detail: fmt.Sprintf("block %d: one-by-one verification rejects at least one signature but the batched/parallel job succeeded; workers=%d blocks=%v", bi, cores, sample)}
+		}
+		if !blk.wantInvalid && blk.waitErr != nil {
+			return &simk.Violation{Class: "C16/valid-signatures-rejected", Detail: fmt.Sprintf("block %d: every signature verifies one by one but the batched/parallel job failed with %v; workers=%d blocks=%v", bi, blk.waitErr, cores, sample)}
+		}
 	}
 	return nil
 }
